@@ -303,6 +303,9 @@ fn selftest(pals: &[Palette], types: &[Ty]) -> (u64, u64) {
 
 pub fn check(tier: Tier) -> i32 {
     let started = Instant::now();
+    if !super::c01_c02::scratch_usable() {
+        return 2;
+    }
     let depth = tier.pick(5, 6);
     let types: Vec<Ty> = tier.pick(vec![Ty::Point, Ty::PointM, Ty::PolylineZ, Ty::PolygonM, Ty::MultipointZ, Ty::Multipatch], ALL13.to_vec());
     let pals: Arc<Vec<Palette>> = Arc::new(types.iter().map(|t| Palette::new(*t, Some(other_of(*t)))).collect());
